@@ -2745,3 +2745,11 @@ impl Default for DhtNetworkConfig {
         }
     }
 }
+
+#[cfg(feature = "verif-hooks")]
+impl DhtNetworkManager {
+    /// Number of entries in the pending DHT operation table.
+    pub fn verif_active_operations_len(&self) -> usize {
+        self.active_operations.lock().map(|ops| ops.len()).unwrap_or(0)
+    }
+}
